@@ -19,14 +19,15 @@ Local Notation "x / y" := (ndiv Ops x y) : num_scope.
 Delimit Scope num_scope with num.
 Local Open Scope num_scope.
 
-Definition one : T := n1 Ops.
-Definition zero : T := n0 Ops.
-Definition two : T := nofZ Ops 2.
-Definition half : T := ndec Ops 1 2.
+(** literals as the T-tie translator emits them: nlit Ops num den m e = the decimal num/den of the source token, the double m*2^e *)
+Definition one : T := nlit Ops 1 1 1 0.
+Definition zero : T := nlit Ops 0 1 0 0.
+Definition two : T := nlit Ops 2 1 1 1.
+Definition half : T := nlit Ops 1 2 1 (-1).
 (** M_PI = 3.14159265358979323846 (math.h), the double 0x1.921fb54442d18p+1 *)
 Definition m_pi : T := nlit Ops 314159265358979323846 100000000000000000000 7074237752028440 (-51).
 (** double eps = 1.0e-14 *)
-Definition gl_eps : T := ndec Ops 1 100000000000000.
+Definition gl_eps : T := nlit Ops 1 100000000000000 6338253001141147 (-99).
 
 (** for(unsigned j = 0; j < n; j++) { p3 = p2; p2 = p1; p1 = ((2.0*j+1.0)*z*p2 - j*p3)/(j+1.0); }
     [cnt] = remaining iterations, [j] the loop counter; returns (p1, p2). *)
@@ -58,7 +59,7 @@ Definition newton_fuel : nat := 100.
 
 (** double z = cos(M_PI * (i + 0.75) / (n + 0.5)); *)
 Definition gl_guess (nT : T) (i : Z) : T :=
-  ncos Ops (m_pi * (nofZ Ops i + ndec Ops 3 4) / (nT + half)).
+  ncos Ops (m_pi * (nofZ Ops i + nlit Ops 3 4 3 (-2)) / (nT + half)).
 
 (** for(int i = 0; i < m; i++): the pairs (z, pp) in the order i = 0 .. m-1 *)
 Fixpoint gl_roots_from (cnt : nat) (i : Z) (n : nat) (nT : T) : res (list (T * T)) :=
